@@ -12,6 +12,7 @@ class GraphQLSchemaExtension(GraphQLType, GraphQLExtension):
     def bake(self, schema):
         schema.add_schema_directives(self.directives)
         for okind, otype in self.operations.items():
+            schema.declared_operation_types.add(okind)
             setattr(schema, f"{okind}_operation_name", otype)
 
     def __eq__(self, other: Any) -> bool:
